@@ -34,7 +34,7 @@ func c17Cells(tier string) []Cell {
 
 	for _, iv := range []int{0, 1} {
 		for _, cb := range []int{0, 1, 3} {
-			for first := 0; first < 8; first++ {
+			for first := 0; first < 9; first++ {
 				cells = append(cells, Cell{ID: c17Cell{Mode: "seq", Interval: iv, Callbacks: cb, First: first}.id()})
 			}
 
@@ -57,15 +57,16 @@ func c17Cells(tier string) []Cell {
 type callIDKey struct{}
 
 type c17h struct {
-	runStart map[int]time.Time // virtual instant at which the first callback of a call started
-	runOrder []int             // calls in the order their runs started
-	inv      *cache.Invalidator
-	log      []string // "cb<j>@call<id>"
-	inflight int
-	overlap  bool
-	monitor  int64
-	ncalls   int
-	panicIn  int // id of the call whose last callback panics (-1: none)
+	runStart  map[int]time.Time // virtual instant at which the first callback of a call started
+	runOrder  []int             // calls in the order their runs started
+	inv       *cache.Invalidator
+	log       []string // "cb<j>@call<id>"
+	inflight  int
+	overlap   bool
+	monitor   int64
+	ncalls    int
+	panicIn   int  // id of the call whose last callback panics (-1: none)
+	cancelled bool // the next invalidate() passes an already cancelled context
 }
 
 // c17Panic is what a faulting callback panics with.
@@ -109,7 +110,16 @@ func (h *c17h) invalidate() (int, error) {
 	id := h.ncalls
 	h.ncalls++
 
-	return id, h.inv.Invalidate(context.WithValue(context.Background(), callIDKey{}, id))
+	ctx := context.WithValue(context.Background(), callIDKey{}, id)
+
+	if h.cancelled {
+		c, cancel := context.WithCancel(ctx)
+		cancel()
+
+		ctx = c
+	}
+
+	return id, h.inv.Invalidate(ctx)
 }
 
 // invalidateFaulting is invalidate with the last callback panicking if the call is accepted; the caller recovers.
@@ -169,7 +179,7 @@ func c17Interval(cc c17Cell) time.Duration {
 func c17Seq(cc c17Cell, env *Env) CellResult {
 	iv := c17Interval(cc)
 	ops := []string{"Invalidate", "Advance(I-1ns)", "Advance(I)", "Advance(I+1ns)", "Advance(1ns)", "Callbacks=nil", "Callbacks=restored",
-		"Invalidate(last callback panics, caller recovers)"}
+		"Invalidate(last callback panics, caller recovers)", "Invalidate(caller context already cancelled)"}
 
 	type st struct {
 		h        *c17h
@@ -186,7 +196,7 @@ func c17Seq(cc c17Cell, env *Env) CellResult {
 
 	apply := func(s *st, op int) (string, bool) {
 		switch op {
-		case 0, 7:
+		case 0, 7, 8:
 			now := vclock.NowQuiet()
 
 			var (
@@ -195,9 +205,15 @@ func c17Seq(cc c17Cell, env *Env) CellResult {
 				panicked bool
 			)
 
-			if op == 7 {
+			switch op {
+			case 7:
 				id, err, panicked = s.h.invalidateFaulting()
-			} else {
+			case 8:
+				// the context is handed to the callbacks; whether it is still live is their business, not Invalidate's
+				s.h.cancelled = true
+				id, err = s.h.invalidate()
+				s.h.cancelled = false
+			default:
 				id, err = s.h.invalidate()
 			}
 
@@ -517,7 +533,7 @@ func init() {
 	Register(&Prop{
 		ID: "C17", Title: "Invalidator runs all callbacks, at most once per SkipInterval",
 		Cells: c17Cells, Run: c17Run,
-		Rule: "(seq) BFS over sequences of {Invalidate, Invalidate whose last callback panics (caller recovers), Advance I-1ns, I, I+1ns, 1ns, Callbacks=nil, Callbacks=restored} for SkipInterval {default 15s, 1s} x callbacks {none,1,3} against the model accepted <=> now-lastAccepted >= I; " +
+		Rule: "(seq) BFS over sequences of {Invalidate, Invalidate whose last callback panics (caller recovers), Invalidate under an already cancelled context, Advance I-1ns, I, I+1ns, 1ns, Callbacks=nil, Callbacks=restored} for SkipInterval {default 15s, 1s} x callbacks {none,1,3} against the model accepted <=> now-lastAccepted >= I; " +
 			"(conc) 2-3 threads x 1-2 Invalidate calls plus a clock thread advancing by I-1ns or I, callbacks are harness functions with a scheduling point inside, all schedules within the bound: " +
 			"no overlap, every accepted call runs every callback once in order before it returns, rejected calls run none, number of accepted calls bounded by the elapsed virtual time",
 		Assumptions: []string{
